@@ -31,7 +31,9 @@ RULE = ("operations: write (every length class 0..520 step 4, 2^10..2^20, unalig
         "of ONE process one after another — such streams detected before, between and after NEW connections of both modes writing "
         "their announcement and frames (mode.New on a recording connection and on the repository's TCP connection over loopback) "
         "and well-formed streams being detected and read: every step judged as the single operation it is; c08.tcp's peer checks "
-        "the announcement the client's transport wrote; "
+        "the announcement the client's transport wrote; c08.cfg = c08.det on a connection configured otherwise: Ctx = Background / TODO / a "
+        "value context / WithoutCancel / a caller's own never-done Context / WithCancel / a child of one / WithTimeout, x Timeout = 0 / 400 ms / "
+        "10 s / 1 h, x both modes x bytewise, whole, random cuts and every composition of the head; "
         "distinct = distinct operation lines; each is compared with the Lean model and judged by the "
         "independent spec framer")
 
